@@ -57,6 +57,31 @@ namespace drv {
       return !bt.is_valid() || same(static_cast<const Expr&>(iface(*h)).type(), static_cast<const Expr&>(iface(*h).body()).type()); }
    bool t_phased_evaluation(L& lx, const Expr& e, Phases p) { return same(static_cast<const Expr&>(iface(*lx.make_phased_evaluation(e, p))).type(), e.type()); }
    bool t_id_expr_decl(L& lx, const Decl& d) { return same(type_of(*lx.make_id_expr(d)), static_cast<const Expr&>(d).type()); }
+   // ---- operands that are REAL library nodes (a foreign node cannot be a qualified type, a reference type or a node retyped later)
+   bool t_literal_cv(L& lx, const Type& t, const String& s, Qualifiers q)
+   {  // the same spelling at a type and at its cv-qualified version: two literals, each reporting its own target type
+      const Type& ct = lx.get_qualified(q, t);
+      // read through the implementation class (its type() is final): which of the two nodes the table hands back depends on the
+      // address order of t and ct, and a dispatch on that undetermined node costs cbmc a 150-way split
+      impl::Literal* a = lx.make_literal(t, s); impl::Literal* b = lx.make_literal(ct, s);
+      return same(a->type(), t) && same(b->type(), ct);
+   }
+   bool t_id_expr_reference(L& lx, const Name& n, const Type& t)
+   {  // an id-expression of a declaration whose type is a reference: that reference type, not the referee
+      auto& r = *new impl::Region{ Optional<ipr::Region>{ } }; auto& r2 = *new impl::Region{ Optional<ipr::Region>{ } };
+      const Type& rt = lx.get_reference(t); const Type& rrt = lx.get_rvalue_reference(t);
+      const ipr::Decl& v = *r.declare_var(n, rt); const ipr::Decl& w = *r2.declare_var(n, rrt);
+      return same(type_of(*lx.make_id_expr(v)), rt) && same(type_of(*lx.make_id_expr(w)), rrt);
+   }
+   bool t_expr_list_retyped(L& lx, const Expr& a, const Type& t1, const Type& t2)
+   {  // the product follows the CURRENT type of an element: read, retype the element, read again
+      auto* l = lx.make_expr_list(); const impl::Expr_list& i = *l;
+      auto* x = lx.make_address(a, Optional<Type>{ t1 });
+      l->push_back(x);
+      bool ok = i.type().size() == 1 && same(i.type()[0], t1);
+      x->typing = &t2;
+      return ok && same(i.type()[0], t2);
+   }
    // ---- sequence types track their members: an expression list's type is the product of its CURRENT elements' types in order
    bool t_expr_list(L& lx, const Expr& a, const Expr& b, const Expr& c)
    {
